@@ -325,6 +325,11 @@ def sec_sf_dispatch(rep):
                 rep.add(ob_eval(f"C10/StructureFunction.get_esf/TMC={mode}/{kind}_{flavor}/corrected object iff TMC on and not use_raw", ok, detail=str(got), inputs={} if ok else {"kind": kind, "heavyness": flavor, "TMC": mode, "observed": str(got), "expected": str(exp)}, replay={"confirmed": True, "python": f"runner with TMC={mode}: get_sf({kind}_{flavor}).get_esf(..., use_raw=False) / load / sibling / use_raw=True"}))
     # cross sections: every request by keyword use_raw=False to the manager asked for
     c11.sec_xs(rep)
+    # 'evaluated at the shifted point xi' presupposes that the object answering a request for xi (or for
+    # a node x_j) is the one for exactly that point: the cache contract of get_esf (C14), re-discharged
+    from . import c14
+
+    c14.sec_sf_cache(rep)
 
 
 def sec_convolve(rep):
